@@ -6,7 +6,6 @@ NA = {
  "C03": "Accuracy of spline-derived IMU rates/forces against analytic kinematics 'within interpolation error that shrinks with the interval' is a limit statement over continuous trajectories; nothing discrete to explore.",
  "C04": "Compares a matrix of transcendental entries with finite-difference sensitivities of a float integrator within the size of neglected terms; numeric tolerance is the whole content.",
  "C05": "Left-inverse and first/second-order residual claims over continuous states are numeric; its only discrete clause (2D rows identically zero) is exercised under C13.",
- "C06": "Equality of H with a derivative is numeric; the discrete clauses (nothing returned at an absent time, two rows in 2D) are exercised by the Query events of C09/C10/C13 but the property is not claimed.",
  "C11": "Numeric equality between two float pipelines (recursive filter vs batch Gauss-Markov) over transcendental system matrices; its time grid is C10 and the block layout is covered structurally under C14.",
  "C15": "Order of accuracy as the sampling interval shrinks is a limit statement; the row/stamp clause is part of the C19 schema check.",
  "C16": "Identities between transcendental functions over a continuum (geodetic round trips, derivatives, parity); no state, no exact domain.",
@@ -71,7 +70,15 @@ CHECKS.update({
    ref="DESIGN.md s6 C19, Appendix B"),
 })
 
-ORDER = ["C02", "C07", "C08", "C09", "C10", "C12", "C13", "C14", "C18", "C19"]
+CHECKS.update({
+ "C06": dict(
+   text="MeasModel.tla describes the three measurement classes on an exact domain (cube-group attitudes with pitch 0, integer velocities, lever arms incl. None, angular rates incl. 'pva carries no rate labels', both altitude modes) twice: the block formulas the code uses for H (and the 3D->2D reduction matrix), and the first-order expansion of the residual z = h(INS) - h(true) under the library's own correction convention (p_true = p (-) DR, v_true = (I + phi x)(v - DV), C_true = (I + phi x) C; without altitude DR3 = 0 and DV3 fixed by 'a correction does not change vertical velocity'), in integer first-order algebra. TLC checks in every configuration that the two agree (JacobianIsDerivative, T32IsConstraint) plus dimension and coupling invariants, and rejects the pinned NedVelocity variant (defect F14). Every configuration TLC prints is then built with the real classes: shapes, H == model exactly, R == sd^2 I exactly, z at the true state, data = truth + e gives z = -e (sign, axis, units), the derivative of the REAL residual along the REAL correct_pva (central difference; all entries are integers on this domain, so the comparison is a rounding) == H, nothing returned at an absent time (one ulp / 1e-9 s / 1e-6 relative away, outside, small and large absolute time, integer-typed index), and the simulators of sim.py with zero and seeded noise.",
+   note="Decided on the exact domain only: H = dz/dx at general attitudes, non-zero pitch and near the pitch singularity is numeric and not decided; the Position metres conversion is compared at 1e-4 m for 3-8 m displacements (sign/axis/unit mistakes are >= 1 m). This check found defect F14 (NedVelocity did not hand its lever arm to the Jacobian), repaired in /repo commit 1cdb812.",
+   technique="TLA+ model in exact integer first-order algebra (MeasModel.tla) checked with TLC over all configurations + replay of every enumerated configuration into the real measurement classes, incl. the derivative of the real residual along the real correction",
+   ref="DESIGN.md s6 C06"),
+})
+
+ORDER = ["C02", "C06", "C07", "C08", "C09", "C10", "C12", "C13", "C14", "C18", "C19"]
 m = {
  "version": 1,
  "setup_cmd": "true",
